@@ -40,8 +40,9 @@ MANIFEST = dict(
                 "implementation-level oracle."),
     level_note=("Trusted: Lean kernel; three standard axioms; harness fakes; tunnel as FIFO of frames (C07). Expiry is lazy (runs "
                 "inside accept events): an overdue association that sees traffic before any sweep is refreshed, not reopened "
-                "(C11_refresh_before_sweep). 'Distinct sources get distinct ids' is proved for one allocation under TablesInChans "
-                "(C11_one_socket_per_source_partial); that invariant's preservation is checked by the oracle, not proved. Id reuse "
+                "(C11_refresh_before_sweep). 'Distinct sources get distinct ids' is proved for every reachable client state "
+                "(C11_one_socket_per_source, C11_table_ids_distinct: the table invariant ClientTables is preserved by every "
+                "client event, Props/C11_ClientTables.lean); the oracle checks the same conclusion on the real objects. Id reuse "
                 "within one server round / with frames in flight breaks the server or misdelivers for small MAX_CHANNEL (known "
                 "finding F19; C11_close_both_ends states the precondition). Server sendto() errors are modelled as 'any errno: "
                 "logged, the association and its socket stay'; the corpus drives errnos inside and outside NET_ERRS followed by "
